@@ -115,6 +115,38 @@ def h_binary(ctx, cfg):
   ctx.prove(getattr(Stream, op.dname).__name__ == op.dname, "dunder-installed")
 
 
+def h_shared_operand(ctx, cfg):
+  """An endless operand (a constant Stream, a ControlStream knob) feeds several expressions: every expression is its
+  own Stream, the operand is not altered by having been used, and a value assigned to the knob afterwards shows in
+  every expression built from it."""
+  from audiolazy import Stream, ControlStream
+  ops = {op.name: op for op in _table()}
+  op1, op2 = ops[cfg["op1"]], ops[cfg["op2"]]
+  c0, c1, k1, k2 = ctx.elem("c0"), ctx.elem("c1"), ctx.elem("k1"), ctx.elem("k2")
+  kind = cfg["kind"]
+  s = ControlStream(c0) if kind == "control" else Stream(c0)
+  def build(op, k):
+    fn = getattr(operator, "__%s__" % op.name[op.rev:])
+    if op.arity == 1: return fn(s), (lambda v: fn(v))
+    if op.rev: return fn(k, s), (lambda v: fn(k, v))
+    return fn(s, k), (lambda v: fn(v, k))
+  r1, f1 = build(op1, k1)
+  r2, f2 = build(op2, k2)
+  ctx.prove(r1 is not s and r2 is not s and r1 is not r2, "expression-is-a-new-stream")
+  n = 3
+  g1, g2, g0 = r1.take(n), r2.take(n), s.take(n)
+  ctx.prove(len(g1) == n and And(*[same(x, f1(c0)) for x in g1]), "every-expression-sees-the-operand",
+            "first expression (%s)" % op1.name)
+  ctx.prove(len(g2) == n and And(*[same(x, f2(c0)) for x in g2]), "every-expression-sees-the-operand",
+            "second expression (%s) built after the first" % op2.name)
+  ctx.prove(len(g0) == n and And(*[same(x, c0) for x in g0]), "operand-unchanged-by-being-used", "")
+  if kind == "control":
+    s.value = c1
+    g1, g2 = r1.take(2), r2.take(2)
+    ctx.prove(And(*[same(x, f1(c1)) for x in g1]) and And(*[same(x, f2(c1)) for x in g2]),
+              "every-expression-follows-the-knob", "after value = c1")
+
+
 def h_compare_reflected(ctx, cfg):
   """list/scalar on the left of a comparison: Python reflects to the swapped Stream method."""
   name = cfg["op"]; N = cfg["N"]
@@ -459,6 +491,13 @@ def tasks(tier, seed):
     T.append(("h_tree", {"tree": t, "N": 2 if not big else 3}))
   for what in ("attr", "call", "method"):
     T.append(("h_attr_call", {"what": what, "N": N}))
+  names = [op.name for op in _table()]
+  pick = [n for n in ("add", "radd", "sub", "rsub", "mul", "rtruediv", "pow", "rpow", "lt", "eq", "and", "ror", "neg", "invert")
+          if n in names]
+  for kind in ("const", "control"):
+    for i, o1 in enumerate(pick):
+      for o2 in (pick[(i + 1) % len(pick)], pick[(i + 5) % len(pick)]) + ((o1,) if big else ()):
+        T.append(("h_shared_operand", {"kind": kind, "op1": o1, "op2": o2}))
   for kind in ("scalar", "list", "tuple", "deque", "set", "frozenset", "stream", "gen", "map", "filter") + ITERATORS:
     for deco, styles in (("pos", ("positional", "pos+kw", "pos+pos", "keyword")), ("kwonly", ("keyword",)),
                          ("default", ("positional", "pos+kw")), ("pos1", ("positional",))):
